@@ -288,6 +288,67 @@ theorem isolation_interleaved (sys : Sys) (op : IOp) (b : Nat) (hb : iopApp sys 
     apply hb
     simp [iopApp, hsb, e]
 
+/-! ## Aborted subroutines; several executors per process -/
+
+/-- dropping a suspended subroutine changes nothing of the controller state … -/
+theorem abort_state (sys : Sys) (i : Nat) : (abort sys i).s = sys.s := by
+  unfold abort; split <;> rfl
+
+/-- … so the invariant survives an abort between two instructions, -/
+theorem inv_abort (sys : Sys) (i : Nat) (hI : Inv sys.s) : Inv (abort sys i).s := by
+  rw [abort_state]; exact hI
+
+/-- and an abort at the yield point inside the next instruction (`qfree`'s reset hook): the mapping
+and the used set were updated together before that yield, so used = mapped ∪ reserved still holds
+and a later `stop`/allocation sees a consistent pool. -/
+theorem inv_abortMid (hw : Bool) (sys : Sys) (i : Nat) (hI : Inv sys.s) : Inv (abortMid hw sys i).s := by
+  unfold abortMid; rw [abort_state]; exact inv_tick hw sys i hI
+
+/-- `qfree` is atomic with respect to (unit module, used): in the state any observer can see after
+the instruction started, the freed physical qubit is neither mapped by the slot nor marked used -/
+theorem qfree_atomic (hw a l l' pc pc' r) (h : stepLoc hw a (.qfree r) l pc = .ok l' pc') :
+    ∃ p q, l.ap.unit[p]?.join = some q ∧ l'.ap.unit = l.ap.unit.set p none ∧ q ∉ l'.used := by
+  simp only [stepLoc] at h
+  repeat' split at h
+  all_goals first | (cases h; done) | skip
+  rename_i p _ _ q hq _
+  cases h
+  exact ⟨p, q, hq, rfl, by simp [mem_srem]⟩
+
+/-- a history may continue after aborts: the invariant holds after any mix of operations, ticks and
+aborts (stated as one more step kind on top of `reachable_interleaved`) -/
+theorem reachable_with_aborts (sys : Sys) (hI : Inv sys.s) (iops : List IOp)
+    (he : ienvOkAll sys iops = true) (hw : Bool) (i : Nat) (iops' : List IOp)
+    (he' : ienvOkAll (abortMid hw (iops.foldl iapply sys) i) iops' = true) :
+    Inv (iops'.foldl iapply (abortMid hw (iops.foldl iapply sys) i)).s :=
+  reachable_interleaved iops' _ (inv_abortMid hw _ i (reachable_interleaved iops sys hI he)) he'
+
+/-- Several executors in one process: a step of executor `k` leaves every other executor's state
+unchanged.  This is true by construction — the model has NO component shared between executors —
+and is exactly what the correspondence stream checks of the real class (each real `Executor`
+instance is compared with its own independent model copy while the instances are advanced
+interleaved): any process-wide shared table in the code shows up as a disagreement. -/
+theorem executors_independent (m : List Sys) (k j : Nat) (op : IOp) (h : j ≠ k) :
+    (mapply m k op)[j]? = m[j]? := by
+  unfold mapply
+  split
+  · rfl
+  · rw [List.getElem?_set]
+    simp [Ne.symm h]
+
+/-- every executor keeps its own invariant -/
+theorem inv_mapply (m : List Sys) (k : Nat) (op : IOp) (hI : ∀ sys ∈ m, Inv sys.s)
+    (he : ∀ sys, m[k]? = some sys → ienvOk sys op = true) : ∀ sys ∈ mapply m k op, Inv sys.s := by
+  unfold mapply
+  split
+  · exact hI
+  · rename_i sys hk
+    intro sys' hs'
+    rcases List.mem_or_eq_of_mem_set hs' with h | h
+    · exact hI sys' h
+    · subst h
+      exact inv_istep sys op (hI sys (List.mem_of_getElem? hk)) (he sys hk)
+
 /-! ## Non-vacuity: a concrete history with two applications, allocation, delivery, stop, re-registration -/
 
 def q0 : XReg := ⟨2, 0⟩
